@@ -106,6 +106,8 @@ type Ctx struct {
 	mu    sync.Mutex
 	p     *Partial
 	known map[string]knownFinding
+
+	confirmed map[string]bool
 }
 
 // Thorough reports whether the thorough tier was requested.
@@ -309,14 +311,15 @@ func panicSite(stack string) string {
 // reproducible, and records outcomes/violations. run returns an outcome class
 // (for the vacuity guard) and the problems found.
 func Cases[T any](c *Ctx, enum func(yield func(T) bool), run func(T) (string, []Problem)) {
-	var idx int64
+	var idx, mine int64
 	enum(func(cs T) bool {
 		i := idx
 		idx++
 		if !c.Mine(i) {
 			return true
 		}
-		if i&0x3f == 0 && c.Expired() {
+		mine++
+		if mine&0xf == 0 && c.Expired() {
 			c.Inexhaustive("deadline hit at case index %d", i)
 			return false
 		}
@@ -338,6 +341,26 @@ func Cases[T any](c *Ctx, enum func(yield func(T) bool), run func(T) (string, []
 // reproduce every time are reported as violations, anything else is an
 // internal error (nondeterminism that the harness failed to own).
 func ConfirmAndRecord(c *Ctx, cs any, probs []Problem, rerun func() []Problem) {
+	// A key that has already been confirmed reproducible on an earlier case of
+	// this worker is only counted: re-confirming a widespread (e.g. known)
+	// finding on every case would multiply the cost of the run by six.
+	c.mu.Lock()
+	if c.confirmed == nil {
+		c.confirmed = map[string]bool{}
+	}
+	all := true
+	for _, p := range probs {
+		if !c.confirmed[p.Key] {
+			all = false
+		}
+	}
+	c.mu.Unlock()
+	if all {
+		for _, p := range probs {
+			c.Violate(p, cs)
+		}
+		return
+	}
 	stable := map[string]int{}
 	for k := 0; k < 5; k++ {
 		seen := map[string]bool{}
@@ -350,6 +373,9 @@ func ConfirmAndRecord(c *Ctx, cs any, probs []Problem, rerun func() []Problem) {
 	}
 	for _, p := range probs {
 		if stable[p.Key] == 5 {
+			c.mu.Lock()
+			c.confirmed[p.Key] = true
+			c.mu.Unlock()
 			c.Violate(p, cs)
 		} else {
 			b, _ := json.Marshal(cs)
